@@ -781,7 +781,28 @@ func ruleDecodeResets(c *Ctx, rule string) {
 			}
 		})
 	}
-	c.floor(rule, n, 2, "decode calls (client and server RecvMsg)")
+	c.floor(rule, n, 1, "decode calls")
+	// both receive methods reach a decode call (their own, or one in a helper they share)
+	a := w.Anchors()
+	reach := 0
+	for _, recv := range []*ssa.Function{a.ClientRecv, a.ServerRecv} {
+		if recv == nil {
+			continue
+		}
+		found := false
+		w.instrsThroughHelpers(recv, func(in ssa.Instruction) {
+			if ci, ok := in.(ssa.CallInstruction); ok {
+				name := calleeName(ci)
+				if name == "google.golang.org/protobuf/proto.Unmarshal" || strings.HasPrefix(name, "(google.golang.org/protobuf/proto.UnmarshalOptions).") {
+					found = true
+				}
+			}
+		})
+		if found {
+			reach++
+		}
+	}
+	c.floor(rule, reach, 2, "receive methods that reach a decode call (client and server RecvMsg)")
 }
 
 // classifyMerged classifies a new (accumulator, expected length) pair; when both arms of the frame switch share one tail, the
